@@ -21,3 +21,14 @@ for f in sorted(glob.glob("/verif/evidence/C*.json")):
 print("| id | obligations on today's tree (distinct non-trivial) | rule groups | self-validation edits (breaking / equivalent) |")
 print("|----|------|----|----|")
 print("\n".join(rows))
+
+# write the table into DESIGN.md §9.1 (it used to be pasted by hand)
+tab = "| id | obligations on today's tree (distinct non-trivial) | rule groups | self-validation edits (breaking / equivalent) |\n|----|------|----|----|\n" + "\n".join(rows)
+d = open("/verif/DESIGN.md").read()
+i = d.index("| id | obligations on today's tree (distinct non-trivial) | rule groups |")
+lines = d[i:].split("\n")
+k = 0
+while k < len(lines) and lines[k].startswith("|"):
+    k += 1
+d = d[:i] + tab + d[i + len("\n".join(lines[:k])):]
+open("/verif/DESIGN.md", "w").write(d)
